@@ -64,6 +64,12 @@ theories/Onto/Update.vos theories/Onto/Update.vok theories/Onto/Update.required_
 theories/Onto/Update_proofs.vo theories/Onto/Update_proofs.glob theories/Onto/Update_proofs.v.beautified theories/Onto/Update_proofs.required_vo: theories/Onto/Update_proofs.v theories/Base/Prelude.vo theories/Onto/Tree.vo theories/Onto/Kinds.vo theories/Onto/Cmp_proofs.vo theories/Onto/Update.vo
 theories/Onto/Update_proofs.vio: theories/Onto/Update_proofs.v theories/Base/Prelude.vio theories/Onto/Tree.vio theories/Onto/Kinds.vio theories/Onto/Cmp_proofs.vio theories/Onto/Update.vio
 theories/Onto/Update_proofs.vos theories/Onto/Update_proofs.vok theories/Onto/Update_proofs.required_vos: theories/Onto/Update_proofs.v theories/Base/Prelude.vos theories/Onto/Tree.vos theories/Onto/Kinds.vos theories/Onto/Cmp_proofs.vos theories/Onto/Update.vos
+theories/Onto/Compat.vo theories/Onto/Compat.glob theories/Onto/Compat.v.beautified theories/Onto/Compat.required_vo: theories/Onto/Compat.v theories/Base/Prelude.vo theories/Base/Bytes.vo theories/Onto/Tree.vo theories/Onto/Kinds.vo theories/Event/Hash.vo theories/Event/Merge.vo
+theories/Onto/Compat.vio: theories/Onto/Compat.v theories/Base/Prelude.vio theories/Base/Bytes.vio theories/Onto/Tree.vio theories/Onto/Kinds.vio theories/Event/Hash.vio theories/Event/Merge.vio
+theories/Onto/Compat.vos theories/Onto/Compat.vok theories/Onto/Compat.required_vos: theories/Onto/Compat.v theories/Base/Prelude.vos theories/Base/Bytes.vos theories/Onto/Tree.vos theories/Onto/Kinds.vos theories/Event/Hash.vos theories/Event/Merge.vos
+theories/Onto/Compat_proofs.vo theories/Onto/Compat_proofs.glob theories/Onto/Compat_proofs.v.beautified theories/Onto/Compat_proofs.required_vo: theories/Onto/Compat_proofs.v theories/Base/Prelude.vo theories/Base/Bytes.vo theories/Onto/Tree.vo theories/Onto/Kinds.vo theories/Onto/Cmp_proofs.vo theories/Onto/Compat.vo theories/Event/Hash.vo theories/Event/Merge.vo
+theories/Onto/Compat_proofs.vio: theories/Onto/Compat_proofs.v theories/Base/Prelude.vio theories/Base/Bytes.vio theories/Onto/Tree.vio theories/Onto/Kinds.vio theories/Onto/Cmp_proofs.vio theories/Onto/Compat.vio theories/Event/Hash.vio theories/Event/Merge.vio
+theories/Onto/Compat_proofs.vos theories/Onto/Compat_proofs.vok theories/Onto/Compat_proofs.required_vos: theories/Onto/Compat_proofs.v theories/Base/Prelude.vos theories/Base/Bytes.vos theories/Onto/Tree.vos theories/Onto/Kinds.vos theories/Onto/Cmp_proofs.vos theories/Onto/Compat.vos theories/Event/Hash.vos theories/Event/Merge.vos
 theories/Onto/Track.vo theories/Onto/Track.glob theories/Onto/Track.v.beautified theories/Onto/Track.required_vo: theories/Onto/Track.v theories/Base/Prelude.vo
 theories/Onto/Track.vio: theories/Onto/Track.v theories/Base/Prelude.vio
 theories/Onto/Track.vos theories/Onto/Track.vok theories/Onto/Track.required_vos: theories/Onto/Track.v theories/Base/Prelude.vos
@@ -160,6 +166,9 @@ theories/Props/C07.vos theories/Props/C07.vok theories/Props/C07.required_vos: t
 theories/Props/C09.vo theories/Props/C09.glob theories/Props/C09.v.beautified theories/Props/C09.required_vo: theories/Props/C09.v theories/Base/Prelude.vo theories/Onto/Tree.vo theories/Onto/Kinds.vo theories/Onto/Cmp_proofs.vo theories/Generated/C09_gen.vo
 theories/Props/C09.vio: theories/Props/C09.v theories/Base/Prelude.vio theories/Onto/Tree.vio theories/Onto/Kinds.vio theories/Onto/Cmp_proofs.vio theories/Generated/C09_gen.vio
 theories/Props/C09.vos theories/Props/C09.vok theories/Props/C09.required_vos: theories/Props/C09.v theories/Base/Prelude.vos theories/Onto/Tree.vos theories/Onto/Kinds.vos theories/Onto/Cmp_proofs.vos theories/Generated/C09_gen.vos
+theories/Props/C10.vo theories/Props/C10.glob theories/Props/C10.v.beautified theories/Props/C10.required_vo: theories/Props/C10.v theories/Base/Prelude.vo theories/Base/Bytes.vo theories/Onto/Tree.vo theories/Onto/Kinds.vo theories/Onto/Compat.vo theories/Onto/Compat_proofs.vo theories/Event/Hash.vo theories/Event/Merge.vo
+theories/Props/C10.vio: theories/Props/C10.v theories/Base/Prelude.vio theories/Base/Bytes.vio theories/Onto/Tree.vio theories/Onto/Kinds.vio theories/Onto/Compat.vio theories/Onto/Compat_proofs.vio theories/Event/Hash.vio theories/Event/Merge.vio
+theories/Props/C10.vos theories/Props/C10.vok theories/Props/C10.required_vos: theories/Props/C10.v theories/Base/Prelude.vos theories/Base/Bytes.vos theories/Onto/Tree.vos theories/Onto/Kinds.vos theories/Onto/Compat.vos theories/Onto/Compat_proofs.vos theories/Event/Hash.vos theories/Event/Merge.vos
 theories/Props/C11.vo theories/Props/C11.glob theories/Props/C11.v.beautified theories/Props/C11.required_vo: theories/Props/C11.v theories/Base/Prelude.vo theories/Onto/Tree.vo theories/Onto/Kinds.vo theories/Onto/Cmp_proofs.vo theories/Onto/Update.vo theories/Onto/Update_proofs.vo
 theories/Props/C11.vio: theories/Props/C11.v theories/Base/Prelude.vio theories/Onto/Tree.vio theories/Onto/Kinds.vio theories/Onto/Cmp_proofs.vio theories/Onto/Update.vio theories/Onto/Update_proofs.vio
 theories/Props/C11.vos theories/Props/C11.vok theories/Props/C11.required_vos: theories/Props/C11.v theories/Base/Prelude.vos theories/Onto/Tree.vos theories/Onto/Kinds.vos theories/Onto/Cmp_proofs.vos theories/Onto/Update.vos theories/Onto/Update_proofs.vos
